@@ -860,3 +860,49 @@ func rulesMulAcc(cx *Ctx, prop string, pkgs ...string) []Obligation {
 	}
 	return obs
 }
+
+// rulesMulAccElsewhere: the same accumulator discipline for every MulAcc call of the circuit packages outside
+// goldilocks and poseidon (whose sites belong to C07 and C10). None exists today; a new one — the Merkle fold
+// rewritten as two MulAcc that both start from the running digest — must satisfy the rule.
+func rulesMulAccElsewhere(cx *Ctx, prop string) []Obligation {
+	P := cx.P
+	o := newOwner(P)
+	var obs []Obligation
+	desc := "the accumulator operand of API.MulAcc is owned and dead after the call (gnark's R1CS builder may update it in place; a value still held elsewhere would change under the compiled circuit but not in the test engine) — every site outside the goldilocks and poseidon packages"
+	n, total := 0, 0
+	for _, fn := range P.ModuleFuncsSorted() {
+		if !circuitPackage(fn) {
+			continue
+		}
+		for _, b := range fn.Blocks {
+			for _, ins := range b.Instrs {
+				c, ok := ins.(*ssa.Call)
+				if !ok {
+					continue
+				}
+				if m, ok := apiMethod(c); !ok || m != "MulAcc" {
+					continue
+				}
+				total++
+				if pk := fnPkgShort(fn); pk == "goldilocks" || pk == "poseidon" {
+					continue
+				}
+				n++
+				key := fmt.Sprintf("%s/MA/%s", prop, P.FnName(fn))
+				r := o.siteOK(c)
+				if r.st == ownNo {
+					obs = append(obs, bad(key, desc, r.why, P.Pos(c.Pos())))
+				} else {
+					obs = append(obs, good(key, desc, P.Pos(c.Pos())+" ("+r.why+")"))
+				}
+			}
+		}
+	}
+	if n == 0 {
+		if total == 0 {
+			return []Obligation{undecided(prop+"/MA/elsewhere", desc, "no MulAcc call was found in the circuit packages at all: the matcher would pass vacuously")}
+		}
+		obs = append(obs, good(prop+"/MA/elsewhere", desc, fmt.Sprintf("no MulAcc call outside goldilocks and poseidon (%d sites there)", total)))
+	}
+	return obs
+}
